@@ -271,14 +271,6 @@ Fixpoint db_of_dump (ks : list kind) (xs : list out) (d : db) : db :=
   | _, _ => d
   end.
 
-(** an answer that says "nothing there" (expected from the reads a second dump adds for ids that did
-    not exist at the time of the first one, when the transaction in between is rolled back) *)
-Definition empty_out (x : out) : bool :=
-  match x with
-  | ONode None | OEdge None | OVal None | OPairs [] | ODeg 0 0 | OIds [] | ORows [] | OVals [] => true
-  | _ => false
-  end.
-
 Inductive tx_end := EndCommit | EndRollback | EndDrop.
 
 (** the single transaction between two dumps, if the segment has the required shape: exactly one
@@ -344,10 +336,14 @@ Definition check_pair (ops : list op) (outs : list out) (d1 d2 : Z * Z * Z) : op
       let idx := range l2 in
       match how with
       | EndRollback | EndDrop =>
-          (* the first [base] reads repeat the first dump: same answers; the added reads: nothing there *)
+          (* the first [base] reads repeat the first dump: same answers; the reads the second dump adds
+             (ids handed out inside the transaction): what the state of the first dump says about them *)
+          let d := db_of_dump k1 x1 db0 in
+          let '(nb2, eb2) := dump_bounds k2 in
           Some (how, filter (fun i => negb (if i <? base
                                             then out_eqb (nth (Z.to_nat i) x2 OErr) (nth (Z.to_nat i) x1 OUnit)
-                                            else empty_out (nth (Z.to_nat i) x2 OErr))) idx)
+                                            else out_eqb (sp_read d d nb2 eb2 (nth (Z.to_nat i) k2 AllScan))
+                                                         (nth (Z.to_nat i) x2 OErr))) idx)
       | EndCommit =>
           (* the state the first dump shows, plus the transaction's writes.  Where the specification says
              "this read is not affected by the transaction" the answer must not change; where it says
